@@ -177,12 +177,16 @@ func parseArgs(argStr string) []string {
 
 	for _, ch := range strings.TrimSpace(argStr) {
 		switch {
+		// The quotes stay part of the argument: they are what tells resolveArgument
+		// that "name" is the string and not the variable of that name
 		case (ch == '"' || ch == '\'') && !inQuote:
 			inQuote = true
 			quoteChar = ch
+			current.WriteRune(ch)
 		case ch == quoteChar && inQuote:
 			inQuote = false
 			quoteChar = 0
+			current.WriteRune(ch)
 		case ch == ',' && !inQuote:
 			if current.Len() > 0 {
 				args = append(args, strings.TrimSpace(current.String()))
